@@ -16,6 +16,11 @@ EXTENDS SPNum, SequencesExt
 NullEl == [null |-> TRUE, v |-> <<>>]
 Val(v)  == [null |-> FALSE, v |-> v]
 
+(* ---- the validity bitmap is a BYTE buffer: bit i lives in byte i div 8 at position i mod 8 (least significant first) ---- *)
+Bit(bytes, i) == (bytes[(i \div 8) + 1] \div Pow2(i % 8)) % 2                  \* base.py: (bitmap[byte_idx] & (1 << (idx % 8))) != 0
+PackBits(bits) == [b \in 1..((Len(bits) + 7) \div 8) |->
+                     SumSeq([k \in 1..8 |-> IF (b - 1) * 8 + k <= Len(bits) THEN bits[(b - 1) * 8 + k] * Pow2(k - 1) ELSE 0])]
+
 (* ---- canonical encoding of a full element sequence F at depth K ---- *)
 RECURSIVE Prefix0(_, _)
 Prefix0(lens, base) == IF lens = <<>> THEN <<base>> ELSE <<base>> \o Prefix0(Tail(lens), base + Head(lens))
@@ -25,7 +30,7 @@ Encode(F, K, withBitmap) ==
         c1  == FlattenSeq(top)                                              \* depth K-1 values (or numbers if K = 1)
         c2  == IF K >= 2 THEN FlattenSeq(c1) ELSE <<>>
         c3  == IF K >= 3 THEN FlattenSeq(c2) ELSE <<>>
-    IN [ bitmap |-> IF withBitmap THEN [i \in 1..Len(F) |-> IF F[i].null THEN 0 ELSE 1] ELSE <<>>,
+    IN [ bitmap |-> IF withBitmap THEN PackBits([i \in 1..Len(F) |-> IF F[i].null THEN 0 ELSE 1]) ELSE <<>>,
          offs   |-> IF K = 1 THEN << Prefix0(Lens(top), 0) >>
                     ELSE IF K = 2 THEN << Prefix0(Lens(top), 0), Prefix0(Lens(c1), 0) >>
                     ELSE << Prefix0(Lens(top), 0), Prefix0(Lens(c1), 0), Prefix0(Lens(c2), 0) >>,
@@ -43,7 +48,7 @@ DecodeChild(L, level, a, b) ==                         \* children a..b-1 at `le
     IF level > Len(L.offs) THEN Sub0(L.values, a, b)
     ELSE [j \in 1..(b - a) |-> DecodeChild(L, level + 1, At0(L.offs[level], a + j - 1), At0(L.offs[level], a + j))]
 Decode(L) == [i \in 1..L.len |->
-                IF L.bitmap # <<>> /\ At0(L.bitmap, L.off + i - 1) = 0 THEN NullEl
+                IF L.bitmap # <<>> /\ Bit(L.bitmap, L.off + i - 1) = 0 THEN NullEl
                 ELSE Val(DecodeChild(L, 2, At0(L.offs[1], L.off + i - 1), At0(L.offs[1], L.off + i)))]
 
 (* ---- the accessors of _ListArrayBufferMixin / _extract_isnull_bytemap, as written ---- *)
@@ -53,7 +58,7 @@ Compose(bo, level, x) == IF level > Len(bo) THEN x ELSE Compose(bo, level + 1, A
 FlatValues(L) == LET bo == BufferOffsets(L) IN
                  Sub0(L.values, Compose(bo, 2, At0(bo[1], 0)), Compose(bo, 2, At0(bo[1], Len(bo[1]) - 1)))
 OuterOffsets(L) == LET bo == BufferOffsets(L) IN [i \in 1..Len(bo[1]) |-> Compose(bo, 2, bo[1][i])]
-IsNull(L) == [i \in 1..L.len |-> IF L.bitmap = <<>> THEN FALSE ELSE At0(L.bitmap, L.off + i - 1) = 0]
+IsNull(L) == [i \in 1..L.len |-> IF L.bitmap = <<>> THEN FALSE ELSE Bit(L.bitmap, L.off + i - 1) = 0]   \* _perform_extract_isnull_bytemap
 (* ring offsets handed to compute_area / compute_line_length for element i by _geometry_map_nested{1,2,3} *)
 NestedOffsets(L, i) ==
     LET bo == BufferOffsets(L) IN
